@@ -5,30 +5,6 @@ From HX Require Export Model.Value Model.Operators Model.Lookup.
 Open Scope Z_scope.
 Notation num := Operators.num (only parsing).
 
-(* ---------- to_number on text spelling a plain decimal number: [+-]?digits(.digits)? ---------- *)
-Fixpoint all_digits_z (s : list Z) : bool := match s with [] => true | c :: r => is_digit c && all_digits_z r end.
-Definition digits_value (s : list Z) : Z := fold_left (fun a c => a * 10 + (c - 48)) s 0.
-Fixpoint split_dot_aux (s acc : list Z) : list Z * option (list Z) :=
-  match s with
-  | [] => (rev acc, None)
-  | c :: r => if c =? 46 then (rev acc, Some r) else split_dot_aux r (c :: acc)
-  end.
-Definition is_nil (s : list Z) : bool := match s with [] => true | _ => false end.
-Definition text_number (s : list Z) : option num :=
-  let '(neg, body) := match s with
-                      | 45 :: r => (true, r)
-                      | 43 :: r => (false, r)
-                      | _ => (false, s)
-                      end in
-  let sg (z : Z) := if neg then - z else z in
-  match split_dot_aux body [] with
-  | (ip, None) => if negb (is_nil ip) && all_digits_z ip then Some (NI (sg (digits_value ip))) else None
-  | (ip, Some fp) =>
-      if all_digits_z ip && all_digits_z fp && negb (is_nil ip && is_nil fp)
-      then Some (NF (Qmake (sg (digits_value (ip ++ fp))) (Z.to_pos (10 ^ Z.of_nat (length fp)))))
-      else None
-  end.
-
 (* ---------- inumbers ---------- *)
 Definition as_number (try_parse text_is_zero : bool) (v : value) : option num :=
   match v with
